@@ -10,6 +10,11 @@ CLAIMED = {
    note='Trusted: Coq kernel + VM, tools/py2coq translator (abstracts warnings/colour statements, listed in the evidence), the harness; Print Assumptions: closed under the global context.',
    technique='Coq proof over a model regenerated from source + exhaustive correspondence check'),
 }
+GENERIC_NOTE = 'Trusted: Coq kernel + VM, tools/py2coq translator (abstracted statements listed in the evidence), hand-written CPython slice coq/Py (validated differentially, not verified), the scenario harness and monitors; Print Assumptions: closed under the global context.'
+CLAIMED['C01'] = dict(
+   text='Machine-checked theorems about the _run_sync/_run_async/_run_iter wrappers regenerated from deal/_runtime/_contracts.py and _validators.py on every run: for every registry, validator list (arbitrary user code), arguments, world and fuel, a non-accepting precondition ends the call with its error before anything after the pre block runs and restores the switch; if all accept, execution continues with the body part with the caller arguments. Binding of the `_` container and validator forms are tied by the correspondence check (random signatures x validator forms x bindings x kinds, model vs real deal) and an independent monitor using CPython itself as binding oracle.',
+   design_ref='DESIGN.md 4.1', note=GENERIC_NOTE,
+   technique='Coq proof over wrappers regenerated from source + differential correspondence + monitor')
 UNCLAIMED_REASON = 'not claimed yet: the Coq model and check for this property are still under construction in this round (no technique switch intended)'
 checks, na = [], []
 for p in props:
